@@ -24,7 +24,7 @@ CLAIMED = {
          "DESIGN.md 5 (C13)"),
  "C14": ("runtime event monitor: panic hook + allocation monitor (refusing global allocator, alloc-error hook) around 20 deserialize entry points fed structure-aware mutations of valid images; Ok values driven through a post phase",
          EXPL + "Seeds are valid images of every family/variant/mode (library-written and spec-encoded); mutators: field-aware boundary values from the spec decoders' field maps, bit flips, byte sets, payload-word replacement, truncation at every offset, extension, splicing, random tails, random strings; run in the rel and the dbg (overflow-checks, debug-assertions) profile.",
-         "Allocation is 'out of proportion' above 1 MiB + 64 bytes per input byte (plus what an Ok value retains); empty Bloom / Count-Min / Frequent-Items images may legitimately declare large tables. Looping is detected by the driver's shard watchdog only.",
+         "Allocation is 'out of proportion' above 1 MiB + 64 bytes per input byte (plus what an Ok value retains); empty Bloom / Count-Min / Frequent-Items images may legitimately declare large tables. 'Never loops' is decided by a hang guard: a call still in flight after 20 s ends the shard with a witness, which the driver replays alone twice before reporting it; a single overrun is inconclusive.",
          "DESIGN.md 5 (C14)"),
  "C17": ("runtime event monitor: valid-use programs (the histories of the behavioural monitors plus an extremes lane at documented limits) executed under debug-assertions + overflow-checks and under release; any panic is a violation",
          EXPL + "Every debug_assert!, unreachable!, expect and arithmetic overflow in the library is armed in the dbg profile; programs include a sweep over every lg_k of HLL 4..21 / CPC 4..26 / theta 5..26 (all queries at all three standard deviations on streamed, deserialized and united sketches), the public codec helpers, HLL lg_k 4/21 with cur_min shifts and exceptions, CPC lg_k 4/21/26 incl. windowed sketches at lg_k 21, t-digest k up to 65535 and empty split lists, Count-Min totals at the counter type's maximum.",
@@ -36,11 +36,11 @@ CLAIMED = {
          "DESIGN.md 5 (C18)"),
  "C02": ("runtime reference-model monitor: Hll4/Hll6/Hll8 instances vs textbook per-slot-maximum model, state dumped through hooks after every operation; dump invariants and HIP increment law",
          EXPL + "Generated histories (crafted coupon phases reaching value 63, cur_min shifts with live aux exceptions, hashed items with duplication, permutations) are fed to the real sketches and to an exact model; the full hooked state is compared after every operation for lg_k<=8 and at checkpoints above. State equality for all streams cannot be settled by examples; comparing the whole state after every prefix of thousands of adversarial histories is the strongest oracle this family has.",
-         "Trusted: the HLL model (harness/src/model/hll.rs), the reference MurmurHash3; coupons injected through the hook are assumed reachable by hashing. lg_k 13..21 only in the thorough tier, at checkpoints.",
+         "Trusted: the HLL model (harness/src/model/hll.rs), the reference MurmurHash3; coupons injected through the hook are assumed reachable by hashing. lg_k 13..17 (quick) / 13..21 (thorough) at checkpoints only.",
          "DESIGN.md 5 (C02)"),
  "C03": ("runtime reference-model monitor: HllUnion histories vs fold/max union model; to_sketch in all three types, gadget dump, permuted replay",
          EXPL + "Random union histories over lg_max_k x input (lg_k, type, mode, fresh/round-tripped, in-order/out-of-order) x update_value/reset; after every step the dumps of to_sketch(Hll4|6|8) and of the gadget are compared with the model, estimates and bounds must agree across types and be non-zero, and a permuted/repeated replay must give the same state.",
-         "Trusted: union model in harness/src/mon/c03.rs; inputs are built through the coupon hook (hash-like coupons). Out-of-order inputs come from helper unions, spec-encoded OOO images are covered by C13.",
+         "Trusted: union model in harness/src/mon/c03.rs; inputs are built through the coupon hook (hash-like coupons; a sixth of the cases plant tall registers up to 63, for which the estimate band is switched off); every to_sketch result is also round-tripped through its own image. Out-of-order inputs come from helper unions, spec-encoded OOO images are covered by C13.",
          "DESIGN.md 5 (C03)"),
  "C04": ("runtime reference-model monitor: theta KMV model (set of offered hashes below theta) vs iter()/num_retained/theta after every operation",
          EXPL + "Histories of update / adversarial hash injection (probe-colliding families, theta+-1, 0, MAX) / trim / reset / compact over lg_k, resize factor, sampling p and seed; cheap invariants after every operation and full entry-set comparison at every change.",
@@ -48,7 +48,7 @@ CLAIMED = {
          "DESIGN.md 5 (C04)"),
  "C05": ("runtime reference-model monitor: CPC bit-matrix model vs hooked matrix, own reconstruction from window+table, validate(), offset/flavor/table/first_interesting_column invariants, KxP and HIP recurrences",
          EXPL + "The complete natural arrival order of novel coupons (the exact law of a hashed stream) drives each sketch through all five flavors and window offsets 1..56 with every 8th-shift KxP refresh, optionally perturbed (planted surprising ones, delayed surprising zeros, duplicates) inside a stated envelope; hashed public lane in addition.",
-         "Trusted: CPC model (harness/src/model/cpc.rs). Perturbed streams stay inside the envelope of DESIGN.md 2.2. lg_k > 12 only as thorough spot checks.",
+         "Trusted: CPC model (harness/src/model/cpc.rs). Perturbed streams stay inside the envelope of DESIGN.md 2.2. lg_k 13..17 (quick) / 13..22 (thorough) as one hook lane to C = 4.5 K and one public lane each.",
          "DESIGN.md 5 (C05)"),
  "C06": ("runtime reference-model monitor: CpcUnion histories vs OR-of-folded-matrices model, all C05 invariants on every result, CpcWrapper agreement, permuted replay",
          EXPL + "Random union histories over union lg_k x inputs of every flavor (exact coupon counts, boundaries favoured), fresh / deserialized / union results; to_sketch after every step.",
@@ -70,8 +70,8 @@ CLAIMED = {
          EXPL + "Universal shape-of-answer statements are checked on grids of q and v (centroid means +-1ulp, midpoints, extremes, outside) at checkpoints of generated histories and on synthetic images of nine classes in four encodings.",
          "Trusted: t-digest spec codec (harness/src/spec/tdigest.rs) used to read the centroid list and to encode synthetic images; float slack 1e-12 relative on monotonicity; resolution tolerance stated in DESIGN.md.",
          "DESIGN.md 5 (C10)"),
- "C15": ("runtime monitor against exact sorted data: centroid count / image size / weight sum / order, and rank error vs the exact empirical distribution within 3 x the k2-scale resolution",
-         EXPL + "Streams of 16 shapes up to 1e5 (1e6 thorough) values, streamed with checkpoints or split over merge trees of 2..16 digests, k in {10..500}.",
+ "C15": ("runtime monitor against exact sorted data: centroid count / image size / weight sum / order, and rank error vs the exact empirical distribution within 3 x the k2-scale resolution (12 x (q(1-q)/k + 1/n) on smooth distributions, one sample at untied extremes), first query taken before anything flushes the buffer",
+         EXPL + "Streams of 17 shapes up to 1e5 (1e6 thorough) values in generated / ascending / descending arrival order, streamed with checkpoints or split over merge trees of 2..16 digests, k in {10, 11, 12, 15, 29, 30, 50, 100, 200, 500}; one small-k long sorted stream per shard.",
          "Trusted: exact sorted data, spec decoder. Two extreme-dynamic-range shapes are listed as open known findings (known_findings.json); every other shape is held to the clause.",
          "DESIGN.md 5 (C15)"),
  "C16": ("runtime differential monitor: library hashers and derived slot/row/bucket values vs independent reference hashes over generated (bytes, seed, chunking) cases",
